@@ -282,11 +282,25 @@ def _hav_of(arc):
     raise NotImplementedError("great_circle_distance built from %r x %r" % (k, d[0]))
 
 
-@harness("C07.distances", cases=lambda tier: ["chord", "symmetry", "shift"],
-         expect=lambda c: {"chord": ["chord=2R*sin(arc/2)"], "symmetry": ["symmetric"], "shift": ["longitude-shift-invariant"]}[c])
+@harness("C07.distances", cases=lambda tier: ["chord", "symmetry", "shift", "chord-near-antipodal"],
+         expect=lambda c: {"chord": ["chord=2R*sin(arc/2)"], "symmetry": ["symmetric"], "shift": ["longitude-shift-invariant"],
+                           "chord-near-antipodal": ["chord=2R*sin(arc/2)"]}[c])
 def k_dist(ctx):
     what = ctx.case
-    lat1, lon1, lat2, lon2 = [_angle(ctx, n) for n in ("lat1", "lon1", "lat2", "lon2")]
+    if what == "chord-near-antipodal":
+        # the same obligation inside a small box of nearly antipodal, off-equator pairs (about 30N 0E and 30S 179E,
+        # more than 176 degrees apart): special handling of that regime is then decided on inputs that reach it
+        from fractions import Fraction as Fr
+        what = "chord"
+        if ctx.sym:
+            lat1 = AG.angle(ctx, "lat1", "deg", t_lo=Fr(130, 1000), t_hi=Fr(133, 1000))
+            lon1 = AG.angle(ctx, "lon1", "deg", t_lo=Fr(-1, 100), t_hi=Fr(1, 100))
+            lat2 = AG.angle(ctx, "lat2", "deg", t_lo=Fr(-133, 1000), t_hi=Fr(-130, 1000))
+            lon2 = AG.angle(ctx, "lon2", "deg", t_lo=Fr(990, 1000), t_hi=Fr(992, 1000))
+        else:
+            lat1, lon1, lat2, lon2 = [_angle(ctx, n) for n in ("lat1", "lon1", "lat2", "lon2")]
+    else:
+        lat1, lon1, lat2, lon2 = [_angle(ctx, n) for n in ("lat1", "lon1", "lat2", "lon2")]
     R = constants.earth_radius
     with _env(ctx):
         arr = (lambda a: np.array([a], dtype=object)) if ctx.sym else (lambda a: np.array([a]))
@@ -535,6 +549,7 @@ PLAN = {
 }
 BOUNDS = {"position + line of sight": "every r > 0, |lat| <= 87.2, |lon| <= 179.88, 0.23 <= za <= 179.77, 0.23 <= |aa| <= 179.77 degrees "
                                      "(rational bounds on tan(angle / 4)); eastward and westward azimuths",
+          "distances": "every pair of points (symbolic lat / lon); the chord identity additionally inside a box of nearly antipodal off-equator pairs",
           "all": "scalar arguments; every latitude with cos(lat) > 0, every longitude, every height in [-10 km, 1000 km], every radius > 0; all six "
                  "ellipsoid models (constants as the decimal literals written in the source); point pairs for the distances"}
 OUTSIDE = ["everything that is a statement about doubles: the 1 cm / 1e-7 degree accuracy, convergence and termination of the cart2geodetic "
